@@ -181,6 +181,10 @@ def panic_sites(fl):
         root = strip_generics(b.raw["root"])
         if other in root:
             continue
+        # the initialiser of a `const` / `static` item (`const _: () = assert!(N.is_power_of_two());`) is evaluated by the
+        # compiler: a panic in it is a build error, not something a configuration can reach at run time
+        if re.match(r"(Const|AnonConst|InlineConst|Static)\b", str(b.raw.get("defkind") or "")) and not b.arg_count:
+            continue
         for bi in b.live_blocks():
             t = b.term(bi)
             if not t:
